@@ -2261,7 +2261,7 @@ namespace avel {
         auto lo = _mm_srl_epi64(full, _mm_cvtsi64_si128(8 * (h - min(h, n))));
         auto hi = _mm_srl_epi64(full, _mm_cvtsi64_si128(8 * (w - min(w, n))));
         auto mask = _mm_unpacklo_epi64(lo, hi);
-        _mm_maskmoveu_si128(decay(v), mask, reinterpret_cast<char *>(ptr));
+        masked_store_bytes(decay(v), mask, reinterpret_cast<char *>(ptr));
 
         #endif
 
@@ -2402,7 +2402,7 @@ namespace avel {
         auto full = _mm_cmpeq_epi8(undef, undef);
 
         auto mask = _mm_srli_si128(full, vec16x8u::width - N);
-        _mm_maskmoveu_si128(decay(v), mask, reinterpret_cast<char *>(ptr));
+        masked_store_bytes(decay(v), mask, reinterpret_cast<char *>(ptr));
         #endif
 
         #if defined(AVEL_NEON)
